@@ -523,6 +523,18 @@ chain_requester(void *a)
 			}
 		}
 		int need = c->fam == FAM_SURV ? n_ok : (n_ok == (int) nrep ? 1 : 0);
+		// Responses travel back through each raw RESPONDENT's per-pipe send
+		// queue, which holds 2 messages and drops (best effort, by design)
+		// when full; the slot of the message being sent stays occupied until
+		// the send *callback* has run, which a scheduler may delay long after
+		// that message was delivered.  So only 2 responses in flight are
+		// guaranteed room; with more (surveyors x respondents > 2) a missing
+		// response is an observation, not a violation.  Routing and body
+		// checks above apply to everything that does arrive.
+		if (c->fam == FAM_SURV && (int) from.size() < need && c->reqs.size() * nrep > 2) {
+			sim_probe("c13_best_effort_response_drop");
+			need = (int) from.size();
+		}
 		if ((int) from.size() < need && stalled_wait)
 			sim_inconclusive("requester wait dominated by injected stalls");
 		if ((int) from.size() < need)
@@ -600,7 +612,7 @@ chain_run(Params *p)
 	int  nreq   = c.fam == FAM_PAIR ? 1 : 1 + (int) W(0, 2);
 	int  nrep   = c.fam == FAM_PAIR ? 1 : (W(0, 3) == 0 ? 2 : 1);
 	if (c.fam == FAM_SURV && nreq * nrep > 3)
-		nrep = 1; // response queues towards a surveyor are 2 deep; stay below
+		nrep = 1; // keep the burst of responses on one pipe small (see chain_requester)
 	// number of receiving sockets, for ttlmode 4's single low one
 	int nrecv   = c.k + nrep;
 	int special = (int) W(0, nrecv - 1);
